@@ -50,6 +50,11 @@ import (
 //   * burst: while the owners work, two more goroutines add and remove FRESH entities that never declare a use case
 //     (DeviceLocal.AddEntity/RemoveEntity of [10] and [11]: the dynamically appearing EV). Entity management of another
 //     entity is no use-case operation: all expectations (own part after every operation, union at the end) stay as they are.
+//   * wave 7: the ARGUMENTS of a declaration are no longer pinned to tidy values. The scenario list used to be an
+//     ascending subset of 1..5, for which any "normalisation" inside the stack (sort, de-duplicate, cap, reverse,
+//     first-n) is the identity; now it is also unordered / descending / with repeated numbers / empty-non-nil /
+//     with numbers beyond 5 (c20GenScen, classes measured by c20ScenClass and counted), and version / sub revision
+//     are now and then spelled unusually. The oracle already compared the list element by element in order.
 
 var (
 	c20Actors = []model.UseCaseActorType{model.UseCaseActorTypeCEM, model.UseCaseActorTypeMonitoringAppliance}
@@ -71,13 +76,14 @@ func init() {
 	rig.Register(&rig.Check{
 		ID:    "C20",
 		Floor: 200,
-		Rule: "seq: case = one generated history of 10-30 use-case operations over 3 entities ([1], [1,1], [2]) x 2 actors x 4 names (70% of removes/set-availability address an existing use case, the rest unknown ones; re-adds carry a new version/scenarios), judged after every step (a third of the cases: only after every 3rd-5th step and at the end, with no read in between; the scenarios buffer of every add is overwritten after the call); " +
+		Rule: "seq: case = one generated history of 10-30 use-case operations over 3 entities ([1], [1,1], [2]) x 2 actors x 4 names (70% of removes/set-availability address an existing use case, the rest unknown ones; re-adds carry a new version/scenarios; the scenario list of a declaration is nil, empty, ascending and unique, in any order, descending, or contains numbers more than once - classes counted as add_scenarios_* - and a quarter of the declarations spell version / sub revision unusually), judged after every step (a third of the cases: only after every 3rd-5th step and at the end, with no read in between; the scenarios buffer of every add is overwritten after the call); " +
 			"non-trivial if it contained an overwrite, a removal of the last use case of an actor and an operation on an unknown use case while at least two entities held use cases. " +
 			"conc: case = per-owner histories of 6-14 operations run by three or (one entity split by actor, 60% of the cases) four goroutines, one of which may remove/re-add its entity, plus observers, a reading peer and a subscribed peer, hook policy (rendezvous of 2 or 3 / jitter at UseCase.afterCopy) from the case PRNG; " +
 			"non-trivial if at least one snapshot was taken while a mutator was in flight and every porcupine partition was decided. " +
 			"burst: four goroutines (two entities and the two actors of the third; one entity owner also removes/re-adds its entity) run 400 (race: 100) unforced read-modify-write cycles each without hooks (every third case with a subscribed peer) and look at their own part of the registry after every operation (GOMAXPROCS 8), while two further goroutines keep adding and removing fresh entities without use cases ([10], [11]) until the owners are done; non-trivial always. distinct = hash of the operation shapes (kinds and shape classes, not versions).",
 		Assumptions: []string{
 			"'equals the registry' is judged on the set of (entity address, actor, use case name -> version, sub revision, availability, scenario list) entries; the order of entries and of supports is not compared",
+			"'the scenarios last given' is the LIST the application passed: same numbers, same order, same multiplicity (a list that is not ascending or names a scenario twice is a legal argument of AddUseCaseSupport; a nil and an empty list are not distinguished); version and sub revision are compared as the strings that were passed",
 			"operations on an entity that is currently not part of the device (after RemoveEntity) still address the registry; the statement does not exclude them",
 			"UseCase.afterCopy lies inside the mutex on the current tree: a rendezvous there expires (counted as window_closed) and is never judged",
 			"a porcupine verdict Unknown (timeout) makes the case inconclusive",
@@ -418,6 +424,14 @@ func (cw *c20World) call(o c20Op) (has bool) {
 	switch o.Kind {
 	case "add":
 		buf := c20ScenBuf(o)
+		// evidence for the input dimension "shape of the declared scenario list" / "spelling of version and sub revision"
+		cw.c.Count("add_scenarios_"+c20ScenClass(o.Scen), 1)
+		if cl := c20ScenClass(o.Scen); cl != "nil" && cl != "empty-non-nil" && cl != "single" && cl != "ascending-unique" {
+			cw.c.Count("adds_with_a_scenario_list_that_is_not_ascending_and_unique", 1)
+		}
+		if c20IsOdd(o.Ver, c20OddVersions) || c20IsOdd(o.Sub, c20OddSubRevs) {
+			cw.c.Count("adds_with_unusual_version_or_subrevision_spelling", 1)
+		}
 		e.AddUseCaseSupport(a, n, model.SpecificationVersionType(o.Ver), o.Sub, o.Avail, buf)
 		// the application reuses its buffer; the reference keeps o.Scen
 		cw.bmu.Lock()
@@ -527,14 +541,118 @@ func (cw *c20World) localCopy() *model.NodeManagementUseCaseDataType {
 
 func c20GenAdd(r *rand.Rand, k c20Key) c20Op {
 	o := c20Op{Kind: "add", K: k, Ver: c20Versions[r.Intn(len(c20Versions))], Sub: c20SubRevs[r.Intn(len(c20SubRevs))], Avail: r.Intn(2) == 0}
-	if r.Intn(4) > 0 {
-		for s := 1; s <= 5; s++ {
+	// every fourth declaration spells version / sub revision the way no specification does: the registry is
+	// a registry of what was DECLARED, not of what a tidy application would have declared
+	if r.Intn(4) == 0 {
+		o.Ver = c20OddVersions[r.Intn(len(c20OddVersions))]
+	}
+	if r.Intn(4) == 0 {
+		o.Sub = c20OddSubRevs[r.Intn(len(c20OddSubRevs))]
+	}
+	o.Scen = c20GenScen(r)
+	return o
+}
+
+// unusual but legal spellings (SpecificationVersionType and the sub revision are free strings)
+var (
+	c20OddVersions = []string{"1.0", "01.00.00", "2.0.0 ", "V1.1.0", "1.0.0-rc2", "10.2.1"}
+	c20OddSubRevs  = []string{"Release", "rc1", " RC1", "release candidate 2"}
+)
+
+// c20GenScen draws the scenario list of a declaration. The statement says "with the ... scenarios ... last
+// given": the list is the application's, so besides the tidy lists of the specifications (ascending, every
+// number once) the generator hands over what applications really build - lists collected module by module
+// (any order, the mandatory scenario last), lists in which a number occurs more than once, descending lists,
+// an empty but non-nil list, numbers that do not start at 1 or leave gaps. Values stay below c20Scribble.
+// The class of the list that was drawn is determined afterwards from the list itself (c20ScenClass).
+func c20GenScen(r *rand.Rand) []model.UseCaseScenarioSupportType {
+	var s []model.UseCaseScenarioSupportType
+	top := 5
+	if r.Intn(4) == 0 {
+		top = 5 + r.Intn(8) // now and then numbers beyond the usual five, with gaps
+	}
+	subset := func() []model.UseCaseScenarioSupportType {
+		var l []model.UseCaseScenarioSupportType
+		for x := 1; x <= top; x++ {
 			if r.Intn(2) == 0 {
-				o.Scen = append(o.Scen, model.UseCaseScenarioSupportType(s))
+				l = append(l, model.UseCaseScenarioSupportType(x))
 			}
 		}
+		return l
 	}
-	return o
+	switch x := r.Intn(20); {
+	case x < 4: // no scenarios at all
+		return nil
+	case x < 5: // an empty list that is not nil
+		return []model.UseCaseScenarioSupportType{}
+	case x < 11: // the tidy list
+		return subset()
+	case x < 14: // any order
+		s = subset()
+		r.Shuffle(len(s), func(i, j int) { s[i], s[j] = s[j], s[i] })
+	case x < 15: // descending
+		s = subset()
+		sort.Slice(s, func(i, j int) bool { return s[i] > s[j] })
+	case x < 17: // ascending, some numbers more than once (adjacent repeats)
+		for _, v := range subset() {
+			for n := 1 + r.Intn(2); n > 0; n-- {
+				s = append(s, v)
+			}
+		}
+	default: // collected from several modules: any order, some numbers repeated anywhere
+		for m := 1 + r.Intn(3); m > 0; m-- {
+			l := subset()
+			r.Shuffle(len(l), func(i, j int) { l[i], l[j] = l[j], l[i] })
+			s = append(s, l...)
+		}
+	}
+	return s
+}
+
+func c20IsOdd(v string, l []string) bool {
+	for _, x := range l {
+		if x == v {
+			return true
+		}
+	}
+	return false
+}
+
+// c20ScenClass names the shape of a scenario list (measured, not assumed from the generator's branch).
+func c20ScenClass(s []model.UseCaseScenarioSupportType) string {
+	if s == nil {
+		return "nil"
+	}
+	if len(s) == 0 {
+		return "empty-non-nil"
+	}
+	asc, desc, dup := true, true, false
+	seen := map[model.UseCaseScenarioSupportType]bool{}
+	for i, v := range s {
+		if seen[v] {
+			dup = true
+		}
+		seen[v] = true
+		if i > 0 && s[i-1] > v {
+			asc = false
+		}
+		if i > 0 && s[i-1] < v {
+			desc = false
+		}
+	}
+	switch {
+	case len(s) == 1:
+		return "single"
+	case asc && !dup:
+		return "ascending-unique"
+	case asc && dup:
+		return "ascending-with-repeats"
+	case desc && !dup:
+		return "descending-unique"
+	case !dup:
+		return "unordered-unique"
+	}
+	return "unordered-with-repeats"
 }
 
 func c20RandKey(r *rand.Rand, e int) c20Key {
